@@ -242,6 +242,22 @@ impl QuicConnection {
     /// Start the connection event loop without notifying protocols.
     /// This is used when protocols have already been notified during accept().
     pub(crate) async fn start(mut self) -> crate::Result<()> {
+        let result = self.run_event_loop().await;
+
+        // The connection is gone once this function returns, no matter why the event loop
+        // exited. Report it closed to the protocols and to `TransportManager` exactly once.
+        let reported = self
+            .protocol_set
+            .report_connection_closed(self.peer, self.endpoint.connection_id())
+            .await;
+
+        result.and(reported)
+    }
+
+    /// Run the connection event loop until the connection is closed or an error occurs.
+    ///
+    /// The caller is responsible for reporting the closed connection.
+    async fn run_event_loop(&mut self) -> crate::Result<()> {
         loop {
             tokio::select! {
                 event = self.connection.accept_bi() => match event {
@@ -275,7 +291,7 @@ impl QuicConnection {
                     }
                     Err(error) => {
                         tracing::debug!(target: LOG_TARGET, peer = ?self.peer, ?error, "failed to accept substream");
-                        return self.protocol_set.report_connection_closed(self.peer, self.endpoint.connection_id()).await;
+                        return Ok(());
                     }
                 },
                 substream = self.pending_substreams.select_next_some(), if !self.pending_substreams.is_empty() => {
@@ -341,10 +357,7 @@ impl QuicConnection {
                             connection_id = ?self.endpoint.connection_id(),
                             "protocols have dropped connection"
                         );
-                        return self.protocol_set.report_connection_closed(
-                            self.peer,
-                            self.endpoint.connection_id(),
-                        ).await;
+                        return Ok(());
                     }
                     Some(ProtocolCommand::OpenSubstream {
                         protocol,
@@ -400,7 +413,7 @@ impl QuicConnection {
                             "force closing connection",
                         );
 
-                        return self.protocol_set.report_connection_closed(self.peer, self.endpoint.connection_id()).await;
+                        return Ok(());
                     }
                 }
             }
